@@ -6,7 +6,16 @@
 #include <rtosc/rtosc.h>
 #include <rtosc/arg-val.h>
 #include <memory>
+#include <sys/time.h>
 using namespace vh;
+
+// Watchdog: one op line takes microseconds; if the library does not come back within a second
+// (e.g. a length loop that never terminates) SIGALRM kills the process and the runner records
+// `crash:signal:14` for that line instead of hanging.
+static void arm_watchdog() {
+    struct itimerval t = {{0, 0}, {1, 0}};
+    setitimer(ITIMER_REAL, &t, NULL);
+}
 
 struct Args {
     std::vector<rtosc_arg_t> a;                    // one per payload tag
@@ -206,6 +215,7 @@ static std::string readers(const bytes &blockbytes) {
 }
 
 static std::string step(const std::string &line) {
+    arm_watchdog();
     auto w = words(line);
     if (w.size() == 2 && w[0] == "R") {
         bytes m;
